@@ -840,14 +840,30 @@ impl<TokenIter: Iterator<Item = Result<Token>>> Parser<TokenIter> {
             Datum {
                 data: DatumBody::Pair(pair),
                 ..
-            } => ParameterFormalsBody::Pair(Box::new(pair.map_ok(&mut |datum| {
+            } => {
+                // a nested list is not a parameter name
+                if let Some(illegal) = pair
+                    .iter()
+                    .chain(pair.last_cdr())
+                    .find(|datum| !matches!(datum.data, DatumBody::Symbol(_)))
+                {
+                    return located_error!(
+                        SyntaxError::ExpectSomething(
+                            "identifier".to_string(),
+                            illegal.to_string()
+                        ),
+                        illegal.location
+                    );
+                }
+                ParameterFormalsBody::Pair(Box::new(pair.map_ok(&mut |datum| {
                 let sub_location = datum.location;
                 Ok(
                     ParameterFormalsBody::Name(Self::transform_identifier(datum)?)
                         .locate(sub_location),
                 )
-            })?))
-            .locate(location),
+                })?))
+                .locate(location)
+            }
             single => {
                 ParameterFormalsBody::Name(Self::transform_identifier(single)?).locate(location)
             }
